@@ -296,7 +296,7 @@ pub fn c08(ctx: &CheckCtx) -> i32 {
     }
     report.stats.evaluations += n;
     report.stats.bump("exhaustive_integer_boundary_triples", n);
-    let cases = ctx.cases(5_000_000, 100_000_000);
+    let cases = ctx.cases(15_000_000, 200_000_000);
     let res = search(ctx, "c08", cases, 8, 160, c08_case);
     report.absorb(res, &|b| {
         let mut c = Choices::new(b);
